@@ -10,6 +10,7 @@ func init() {
 			ruleLOSTWRITE(c, all...)
 			ruleSTRUCTCOPY(c, all...)
 			ruleSCRATCHSET(c, all...)
+			ruleMINUPDATE(c, all...)
 		},
 	})
 }
